@@ -1,0 +1,62 @@
+//go:build verif
+
+package zygo
+
+import (
+	"fmt"
+	"sync/atomic"
+)
+
+// Verification instrumentation (build tag verif). A global step
+// budget lets a harness bound programs that would not terminate,
+// and an optional trace callback observes every executed instruction.
+
+// verifBudget < 0 means unlimited.
+var verifBudget int64 = -1
+var verifSteps int64
+
+// VerifSetBudget sets the number of VM instructions that may still
+// be executed (by any interpreter in the process) before Run()
+// returns a "step budget exhausted" error. n < 0 disables the limit.
+func VerifSetBudget(n int64) {
+	atomic.StoreInt64(&verifBudget, n)
+	atomic.StoreInt64(&verifSteps, 0)
+}
+
+// VerifSteps returns the number of instructions executed since the
+// last VerifSetBudget call.
+func VerifSteps() int64 { return atomic.LoadInt64(&verifSteps) }
+
+// VerifBudgetExhausted is the error text used when the budget runs out.
+const VerifBudgetExhausted = "verif: step budget exhausted"
+
+// VerifTrace, when non-nil, is called before (phase 0) and after
+// (phase 1) every instruction.
+var VerifTrace func(env *Zlisp, phase int, instr Instruction, err error)
+
+type verifBudgetInstr struct{}
+
+func (verifBudgetInstr) InstrString() string { return "verif-budget-exhausted" }
+func (verifBudgetInstr) Execute(env *Zlisp) error {
+	return fmt.Errorf(VerifBudgetExhausted)
+}
+
+func verifBefore(env *Zlisp, instr Instruction) Instruction {
+	atomic.AddInt64(&verifSteps, 1)
+	if b := atomic.LoadInt64(&verifBudget); b >= 0 {
+		if b == 0 {
+			return verifBudgetInstr{}
+		}
+		atomic.AddInt64(&verifBudget, -1)
+	}
+	if VerifTrace != nil {
+		VerifTrace(env, 0, instr, nil)
+	}
+	return instr
+}
+
+func verifAfter(env *Zlisp, instr Instruction, err error) {
+	if VerifTrace != nil {
+		VerifTrace(env, 1, instr, err)
+	}
+}
